@@ -156,6 +156,8 @@ def run(case: dict, ctx) -> dict:
         bs, n = case["bs"], case["n"]
         spb = bs // SECTOR
         tail = rng.choice([0, 0, rng.randrange(0, spb)]) if n else 0
+        odd = rng.randrange(1, SECTOR) if n and rng.random() < 0.08 else 0
+        case["_odd"] = odd
         sf, layer, meta = w.build_dynamic(
             rng, block_size=bs, nblocks=n, tail_cut_sectors=tail, placement=case["placement"], bitmaps=case["bitmaps"],
             tag=rng.getrandbits(48), header_off=rng.choice([512, 512, 1024, 512 * rng.randrange(1, 40), (4 << 30) - 512, 6 << 30]) if bs >= 4096 else 512,
@@ -164,6 +166,7 @@ def run(case: dict, ctx) -> dict:
             table_place=rng.choice(["front", "front", "behind", "middle"]), stale_copy=rng.random() < 0.2,
             # blocks stored beyond 1 TiB of file: the table's 32-bit sector numbers use their top bit
             far_sector=rng.choice([0, 0, 0, 0x7FFFFF00, 0x80000000, 0xC0000001]) if bs >= 4096 else 0,
+            odd_bytes=odd,
         )
         units = [bs]
     model = Model(meta["size"], [layer])
@@ -174,6 +177,15 @@ def run(case: dict, ctx) -> dict:
         res["cnt"]["writer_triangulations"] = 1
     fh = as_handle(sf.to_bytes() if sf.end <= (8 << 20) else sf)
     o = call(VHD, fh)
+    res["cnt"]["sizes_ending_inside_a_sector"] = int(bool(case.get("_odd")))
+    if not o.ok and case.get("_odd"):
+        # a byte count that is no whole number of sectors is unusual enough for a reader to refuse it; what it must not do is
+        # open the disk and then not serve all of its bytes
+        res["cnt"]["odd_size_refusals"] = 1
+        res["nontrivial"] = True
+        res["sig"] = ("odd-refused", case["i"])
+        res["sample"] = {"odd_size": meta["size"], "outcome": o.brief()}
+        return res
     if not o.ok:
         res["viol"].append({"what": f"open failed on conformant image: {o.brief()}", "mech": MECH, "detail": {"tb": o.tb}})
         return res
